@@ -1,11 +1,13 @@
 #!/usr/bin/env python3
 """Re-run each kept seeded change's own quick check with the current harness (the demo / upstream-suite
 validation of a change does not depend on the harness and is not repeated) and record the outcome in
-seeded/<name>/meta.json.  usage: lib/seedrerun.py <nslots> [name-prefix ...]"""
+seeded/<name>/meta.json.  usage: lib/seedrerun.py <nslots> [name-prefix ...] [--no-record]
+(with --no-record and VERIF_SEED=<n>: a seed-robustness probe that only prints)"""
 import glob, json, os, queue, shutil, subprocess, sys, time
 from concurrent.futures import ThreadPoolExecutor
 V = os.path.dirname(os.path.dirname(os.path.abspath(__file__)))
-n = int(sys.argv[1]); pref = sys.argv[2:]
+record = "--no-record" not in sys.argv
+n = int(sys.argv[1]); pref = [a for a in sys.argv[2:] if not a.startswith("--")]
 names = sorted(os.path.basename(d) for d in glob.glob(os.path.join(V, "seeded", "*")) if os.path.isdir(d))
 if pref:
     names = [x for x in names if any(x.startswith(p) for p in pref)]
@@ -26,6 +28,9 @@ def run(name):
             j = json.loads(p.stdout)[pid]
         except Exception:
             print(name, "UNPARSEABLE", p.stdout[-300:], flush=True)
+            return
+        if not record:
+            print(name, j["exit"], "%.0fs" % j.get("wall_s", 0), "seed=%s" % os.environ.get("VERIF_SEED", "0"), flush=True)
             return
         mp = os.path.join(V, "seeded", name, "meta.json")
         m = json.load(open(mp))
